@@ -463,6 +463,8 @@ def cmd_rxdiff(argv):
                 r["rxdiff"] = {"error": (p.stderr or p.stdout)[-300:]}
             else:
                 rows = json.load(open(outp))
+                if [x[:3] for x in rows] != [x[:3] for x in base_rows]:
+                    raise SystemExit("rxdiff: the generated rule list differs from the clean dump (generators changed meanwhile?) - start again")
                 diff = [(a, b) for a, b in zip(base_rows, rows) if a[3] != b[3]]
                 r["rxdiff"] = {"rules": len(rows), "differ": len(diff), "examples": [[a[0], a[2], a[4][:200]] for a, _ in diff[:4]]}
         finally:
